@@ -33,6 +33,7 @@ inductive Stmt where
   | move (d s : Nat)                       -- d := s
   | copyDict (d s : Nat)                   -- d := dict(s) / list(s) / Argvals(s): NEW cell, same fields
   | concat (d s t : Nat)                   -- d := {**s, **t}: NEW cell, fields of s then of t
+  | select (d s : Nat) (idx : List Nat)    -- d := {k: s[k] for k in idx}: NEW cell, the chosen fields of s
   | setFields (o : Nat) (fs : List Nat)    -- o.fields := values of those variables   (in-place)
   | writeData (o : Nat) (v : Nat)          -- in-place write into the buffer of o
   | popKey (o f : Nat)                     -- del o[f]                                (in-place)
@@ -57,6 +58,7 @@ def exec1 (s : Stmt) (e : Env) (h : Heap) : Env × Heap :=
   | .move d s => (upd e d (e s), h)
   | .copyDict d s => (upd e d h.next, halloc h ⟨(h.cell (e s)).data, (h.cell (e s)).fields, []⟩)
   | .concat d s t => (upd e d h.next, halloc h ⟨0, (h.cell (e s)).fields ++ (h.cell (e t)).fields, []⟩)
+  | .select d s idx => (upd e d h.next, halloc h ⟨0, idx.filterMap fun i => (h.cell (e s)).fields[i]?, []⟩)
   | .setFields o fs => (e, hupd h (e o) { (h.cell (e o)) with fields := fs.map e })
   | .writeData o v => (e, hupd h (e o) { (h.cell (e o)) with data := v })
   | .popKey o f => (e, hupd h (e o) { (h.cell (e o)) with fields := (h.cell (e o)).fields.eraseIdx f })
@@ -74,6 +76,7 @@ def check : List Stmt → List Nat → Bool
   | .alloc d :: ss, fresh => check ss (d :: fresh)
   | .copyDict d _ :: ss, fresh => check ss (d :: fresh)
   | .concat d _ _ :: ss, fresh => check ss (d :: fresh)
+  | .select d _ _ :: ss, fresh => check ss (d :: fresh)
   | .load d _ _ :: ss, fresh => check ss (fresh.filter (· != d))
   | .loadCache d _ _ :: ss, fresh => check ss (fresh.filter (· != d))
   | .move d s :: ss, fresh => check ss (if fresh.contains s then d :: fresh else fresh.filter (· != d))
@@ -81,6 +84,22 @@ def check : List Stmt → List Nat → Bool
   | .writeData o _ :: ss, fresh => fresh.contains o && check ss fresh
   | .popKey o _ :: ss, fresh => fresh.contains o && check ss fresh
   | .setCache _ _ :: ss, fresh => check ss fresh
+
+/-- A NumPy view (`a[1:3]`, `a[i]`, `a.reshape(…)`, `moveaxis`): another array object on the SAME
+buffer.  In the heap of buffers it is the same cell, so a view of an input is never fresh and
+`check` refuses every in-place write through it. -/
+abbrev Stmt.view (d s : Nat) : Stmt := .move d s
+
+/-- the references written in place while the program runs (targets of `setFields`,
+`writeData`, `popKey`), in order -/
+def writes : List Stmt → Env → Heap → List Nat
+  | [], _, _ => []
+  | s :: ss, e, h =>
+    (match s with
+      | .setFields o _ => [e o]
+      | .writeData o _ => [e o]
+      | .popKey o _ => [e o]
+      | _ => []) ++ writes ss (exec1 s e h).1 (exec1 s e h).2
 
 /-- does the program read a cache slot? -/
 def readsCache : List Stmt → Bool
@@ -243,6 +262,39 @@ def skMFPCAFitCoded : Skel :=
   ⟨[load 10 0 0, load 11 10 0, popKey 11 0, popKey 11 0, load 13 10 1, popKey 13 0, popKey 13 0,
     alloc 15, setCache 0 [15]], 15⟩
 
+/-- `fd[i]`, `fd[a:b]` on dense or basis-expansion data: a new object whose first field (argvals /
+basis) is the one of `self` and whose second field (values / coefficients) is a VIEW of the
+array of `self` -/
+def skGetitemView : Skel :=
+  ⟨[load 10 0 0, load 11 0 1, Stmt.view 12 11, alloc 14, setFields 14 [10, 12]], 14⟩
+
+/-- `fd[idx]` on irregular data: new argvals / values dictionaries holding the selected per-curve
+objects of `self` (the arrays themselves are shared, not copied) -/
+def skGetitemIrregular (idx : List Nat) : Skel :=
+  ⟨[load 10 0 0, select 12 10 idx, load 13 0 1, select 15 13 idx, alloc 16, setFields 16 [12, 15]], 16⟩
+
+/-- `mfd[i]`, `mfd[a:b]` on multivariate data (two components): each component through `skGetitemView` -/
+def skMultiGetitemView : Skel :=
+  ⟨[load 20 0 0, load 21 0 1,
+    load 10 20 0, load 11 20 1, Stmt.view 12 11, alloc 14, setFields 14 [10, 12],
+    load 30 21 0, load 31 21 1, Stmt.view 32 31, alloc 34, setFields 34 [30, 32],
+    alloc 40, setFields 40 [14, 34]], 40⟩
+
+/-- `UFPCA.transform(data)` / `MFPCA.transform` / `FCPTPA.transform`: variable 1 is the data
+argument (only read), the scores are a new array -/
+def skTransform : Skel :=
+  ⟨[loadCache 10 0 0, load 11 1 0, load 12 1 1, alloc 13], 13⟩
+
+/-- `inverse_transform(scores)`: variable 1 is the caller's score array — only read; the result is
+a new object on new argvals that hold the sampling arrays of the stored eigenfunctions -/
+def skInverseTransform : Skel :=
+  ⟨[loadCache 10 0 0, load 11 10 0, copyDict 12 11, move 13 1, alloc 14, alloc 15, setFields 15 [12, 14]], 15⟩
+
+/-- `inverse_transform` as seeded in round 2 (`scores *= sqrt(weights)`): writes into the caller's array -/
+def skInverseTransformInPlace : Skel :=
+  ⟨[loadCache 10 0 0, load 11 10 0, copyDict 12 11, move 13 1, writeData 13 1, alloc 14, alloc 15,
+    setFields 15 [12, 14]], 15⟩
+
 /-- the table used by the driver -/
 def skelOf : String → Option Skel
   | "copy_argvals" => some skCopyArgvals
@@ -269,6 +321,14 @@ def skelOf : String → Option Skel
   | "estimator_apply" => some skEstimatorApply
   | "mfpca_fit" => some skMFPCAFit
   | "mfpca_fit_coded" => some skMFPCAFitCoded
-  | _ => none
+  | "getitem_view" => some skGetitemView
+  | "multi_getitem_view" => some skMultiGetitemView
+  | "transform" => some skTransform
+  | "inverse_transform" => some skInverseTransform
+  | name =>
+    -- parametric: `getitem_irregular:<i.j.k>`
+    match name.splitOn ":" with
+    | ["getitem_irregular", idx] => ((idx.splitOn ".").mapM String.toNat?).map skGetitemIrregular
+    | _ => none
 
 end FDA.Alias
